@@ -567,11 +567,16 @@ pub fn run(ctx: &Ctx) -> i32 {
         let nctx = if d < max_depth { CONTEXTS.len() } else { CORE_CONTEXTS };
         let n = chain_space_n(d, nctx);
         let stride_fresh = if d <= 1 { 1 } else if d == 2 { ctx.tier.pick(11, 1) } else { 0 };
+        // thorough tier: of the 106 M core chains of depth 4 every 4th (the full level takes an hour)
+        let stride_deepest: u64 = if d == 4 { 4 } else { 1 };
         let a = par_fold(
             n,
             512,
             || St { pair: None, busy: None, busy_used: 0 },
             |st, acc, i| {
+                if i % stride_deepest != 0 {
+                    return;
+                }
                 if let Some(p) = chain_program_n(i, d, nctx) {
                     let fresh = stride_fresh != 0 && i % stride_fresh == 0;
                     run_chain(st, acc, &p, d, i, d <= 2, fresh);
@@ -585,7 +590,7 @@ pub fn run(ctx: &Ctx) -> i32 {
             Acc::merge,
             acc_zero,
         );
-        programs += n;
+        programs += n / stride_deepest;
         acc = Acc::merge(acc, a);
     }
     // B. sessions
@@ -767,7 +772,7 @@ pub fn run(ctx: &Ctx) -> i32 {
     rep.transitions = Some(acc.evals * 3);
     rep.traces_validated = Some(acc.nontrivial + val.forms_agreeing);
     rep.rule = format!(
-        "A. every chain of <= {} one-hole contexts ({} contexts, the 28 extended ones - nested quasiquote (also as a dotted tail, and with a dotted unquote inside), case => (also as the last clause), a promise that forces itself, multi-expression cond clause, multi-list map / for-each, let with internal define, empty let*, a promise forced twice, apply of map, accumulating named let, and / or / when / unless / one-armed if with the hole as a non-final operand or test, set! of a global - only below the maximal depth: operand positions, fixed/variadic/rest lambdas, apply, let/let*/letrec/named let, begin, if, cond (else, =>, test-only), case (clause, key, else =>), and/or/when/unless, quasiquote (list, vector, nested, cdr), delay/force, internal defines, set!, map/for-each callbacks, call/cc (return, escape), returned closure, constructors, global procedure, eval) around each of {} leaves (constants of every data kind, innermost/outer local, global, set!-then-read of local/global, immediate closure, let rebinding, quasiquote templates over a local, fixed/variadic/apply calls of globals, a logging call, five failures) = {} programs, each run as the session (define g 100); program; g on the real VM and on the reference CEK machine and compared form by form (value or failure, display/write output); B. every sequence of <= {} of the {} top-level forms over globals g h f (definitions, redefinitions, set!, late-bound procedure bodies, calls) = {} sessions, renamed apart inside a shared VM and (length <= 3) verbatim in a fresh VM; E. every tree of if forms of depth <= 2 (one- and two-armed, constant tests, eight kinds of leaves incl. let and begin bodies and assignments whose value is itself a conditional) as a top-level form, as an operand, as a procedure body and in statement position of a body followed by a variable reference, a constant or a call; F. ten kinds of call (variadic with zero, one and two extra arguments, fixed, the prelude's list, call/cc, apply, a named-let loop, map) made while N operands are pending for every N in 0..1100, and at the bottom of a non-tail recursion of every depth 0..300 with 0..3 operands pending per level, each in a fresh VM (a stack that has never been larger): the value of the call alone; D. sixteen programs whose variables are spelled like the temporaries (var1, temp, atom-key), the free identifiers (not, memv, make-promise, begin) and the keywords (and, when) of the prelude's derived-form macros, or that define the prelude's helper procedures (any?, map1), with controls, and 96 programs that bind each of 11 prelude keywords and a user-defined keyword as a variable that is not the head of a list (later parameter, rest parameter, internal definition, let and named-let variable, captured, assigned, parameter of a defined procedure); C. every chain program of depth <= 2 also runs in a VM that first evaluated 60 unrelated globals, 5 macros, garbage and a collection, and (all of depth <= 1, every {}th of depth 2) twice in fresh VMs, once given as data (Vm::eval) and once as text (Vm::eval_text); all observations must be equal. Non-trivial = a program or session on which model and implementation agreed on every form (programs the model excludes - R7RS prescribes no outcome - are counted separately).",
+        "A. every chain of <= {} one-hole contexts (at depth 4, thorough tier only, every 4th chain; {} contexts, the 28 extended ones - nested quasiquote (also as a dotted tail, and with a dotted unquote inside), case => (also as the last clause), a promise that forces itself, multi-expression cond clause, multi-list map / for-each, let with internal define, empty let*, a promise forced twice, apply of map, accumulating named let, and / or / when / unless / one-armed if with the hole as a non-final operand or test, set! of a global - only below the maximal depth: operand positions, fixed/variadic/rest lambdas, apply, let/let*/letrec/named let, begin, if, cond (else, =>, test-only), case (clause, key, else =>), and/or/when/unless, quasiquote (list, vector, nested, cdr), delay/force, internal defines, set!, map/for-each callbacks, call/cc (return, escape), returned closure, constructors, global procedure, eval) around each of {} leaves (constants of every data kind, innermost/outer local, global, set!-then-read of local/global, immediate closure, let rebinding, quasiquote templates over a local, fixed/variadic/apply calls of globals, a logging call, five failures) = {} programs, each run as the session (define g 100); program; g on the real VM and on the reference CEK machine and compared form by form (value or failure, display/write output); B. every sequence of <= {} of the {} top-level forms over globals g h f (definitions, redefinitions, set!, late-bound procedure bodies, calls) = {} sessions, renamed apart inside a shared VM and (length <= 3) verbatim in a fresh VM; E. every tree of if forms of depth <= 2 (one- and two-armed, constant tests, eight kinds of leaves incl. let and begin bodies and assignments whose value is itself a conditional) as a top-level form, as an operand, as a procedure body and in statement position of a body followed by a variable reference, a constant or a call; F. ten kinds of call (variadic with zero, one and two extra arguments, fixed, the prelude's list, call/cc, apply, a named-let loop, map) made while N operands are pending for every N in 0..1100, and at the bottom of a non-tail recursion of every depth 0..300 with 0..3 operands pending per level, each in a fresh VM (a stack that has never been larger): the value of the call alone; D. sixteen programs whose variables are spelled like the temporaries (var1, temp, atom-key), the free identifiers (not, memv, make-promise, begin) and the keywords (and, when) of the prelude's derived-form macros, or that define the prelude's helper procedures (any?, map1), with controls, and 96 programs that bind each of 11 prelude keywords and a user-defined keyword as a variable that is not the head of a list (later parameter, rest parameter, internal definition, let and named-let variable, captured, assigned, parameter of a defined procedure); C. every chain program of depth <= 2 also runs in a VM that first evaluated 60 unrelated globals, 5 macros, garbage and a collection, and (all of depth <= 1, every {}th of depth 2) twice in fresh VMs, once given as data (Vm::eval) and once as text (Vm::eval_text); all observations must be equal. Non-trivial = a program or session on which model and implementation agreed on every form (programs the model excludes - R7RS prescribes no outcome - are counted separately).",
         max_depth, CONTEXTS.len(), LEAVES.len(), programs, max_len, SESSION_FORMS.len(), sessions, ctx.tier.pick(11, 1)
     );
     rep.extra("chain_programs_enumerated", json!(programs));
